@@ -50,6 +50,10 @@ func (f *Rem) Call(s *slip.Scope, args slip.List, depth int) (result slip.Object
 	if _, ok := args[1].(slip.Real); !ok {
 		slip.TypePanic(s, depth, "divisor", args[1], "real")
 	}
+	if bothRational(args[0], args[1]) {
+		// Exact: rem is the second value of truncate.
+		return canonical(truncate(s, f, args, depth)[1])
+	}
 	n, d := slip.NormalizeNumber(args[0], args[1])
 	switch num := n.(type) {
 	case slip.Fixnum:
